@@ -391,13 +391,13 @@ func C10(c *Ctx) *kf.Report {
 		}
 	}
 	// 3b. duels: k goroutines are released together by a barrier and register the SAME not-yet-registered name
-	// (function, class, constant). The calls are recorded as mutually overlapping (calls first, returns after: the
+	// (function, class, constant, global variable slot). The calls are recorded as mutually overlapping (calls first, returns after: the
 	// weakest real-time claim, so never a false alarm); "a duplicate is rejected for all but one registrant".
 	duels := c.Pick(30000, 300000)
 	{
 		vm, _ := rt.NewVM()
 		var idents sync.Map
-		kinds := []string{"addFunc", "addClass", "addFunc", "setConst"}
+		kinds := []string{"addFunc", "addClass", "ensureGlobal", "addFunc", "setConst", "ensureGlobal"}
 		const k = 4
 		var round, done atomic.Int64
 		res := make([]string, k)
@@ -431,7 +431,11 @@ func C10(c *Ctx) *kf.Report {
 					oks++
 				}
 			}
-			if oks == 1 && d%200 != 0 {
+			expected := oks == 1
+			if op == "ensureGlobal" { // every registrant of a fresh global name must get the same slot
+				expected = res[0] == res[1] && res[1] == res[2] && res[2] == res[3]
+			}
+			if expected && d%200 != 0 {
 				continue // the expected outcome; a sample is still sent through TLC
 			}
 			h := &history{}
